@@ -16,6 +16,24 @@ def confirm(src):
     try:
         meta = json.load(open(os.path.join(src, "meta.json")))
         feat = " --features serde" if "serde" in open(os.path.join(src, "demo.rs")).read() else ""
+        if meta.get("demo_kind") == "miri":
+            # ordering-only changes: the demo is a test meant for Miri (data-race detector, weak-memory emulation over many seeds)
+            shutil.copy(os.path.join(src, "demo.rs"), os.path.join(wt, "tests", "zz_demo.rs"))
+            mi = 'MIRIFLAGS="-Zmiri-many-seeds=0..32" cargo +nightly miri test --offline --test zz_demo'
+            rc, out = sh(mi, wt, 3600); ran.append("clean tree: miri test zz_demo -> rc %d" % rc)
+            if rc != 0: return name, False, "miri demo fails on the clean tree", ran
+            rc, out = sh("git apply " + os.path.join(src, "patch.diff"), wt)
+            if rc != 0: return name, False, "patch does not apply: " + out[-300:], ran
+            rc, out = sh(mi, wt, 3600); ran.append("patched: miri test zz_demo -> rc %d" % rc)
+            if rc == 0: return name, False, "miri demo passes with the patch", ran
+            os.remove(os.path.join(wt, "tests", "zz_demo.rs"))
+            rc, out = sh("cargo test --workspace --no-fail-fast --offline", wt); ran.append("patched: cargo test --workspace (existing suite) -> rc %d" % rc)
+            if rc != 0: return name, False, "existing suite fails with the patch: " + out[-500:], ran
+            dst = os.path.join("/verif/seeded", name); os.makedirs(dst, exist_ok=True)
+            for f in ("patch.diff", "demo.rs"): shutil.copy(os.path.join(src, f), os.path.join(dst, f))
+            meta["confirmed"] = ran
+            json.dump(meta, open(os.path.join(dst, "meta.json"), "w"), indent=1)
+            return name, True, "confirmed (miri)", ran
         shutil.copy(os.path.join(src, "demo.rs"), os.path.join(wt, "tests", "zz_demo.rs"))
         rc, out = sh("cargo test --offline --test zz_demo" + feat, wt); ran.append("clean tree: cargo test --test zz_demo%s -> rc %d" % (feat, rc))
         if rc != 0: return name, False, "demo fails on the clean tree", ran
